@@ -278,9 +278,50 @@ func (p *Prog) CheckProperty(prop, tier string, seed int) *CheckResult {
 	obls = append(obls, sobls...)
 	res.Statics = snotes
 
+	// obligations that are attempted but not claimed (tryensures)
+	var tries []*Obl
+	{
+		var keep []*Obl
+		for _, o := range obls {
+			if o.Try {
+				if tier == "thorough" {
+					tries = append(tries, o)
+				}
+				continue
+			}
+			keep = append(keep, o)
+		}
+		obls = keep
+	}
 	work := filepath.Join(verifDir, "work", prop+"-"+tier)
 	os.RemoveAll(work)
 	SolveAll(obls, work, timeout, all)
+	// robustness: an obligation that timed out under load is retried alone
+	// with all back ends and a longer timeout before it counts as failed
+	var retry []*Obl
+	for _, o := range obls {
+		if o.Expect != "sat" && (o.Status == "unknown" || o.Status == "cover-unknown") {
+			o.Status = ""
+			retry = append(retry, o)
+		}
+	}
+	if len(retry) > 0 {
+		res.Extra["retried_after_timeout"] = len(retry)
+		var rn []string
+		for _, o := range retry {
+			SolveAll([]*Obl{o}, work, timeout*4, false)
+			rn = append(rn, fmt.Sprintf("%s [%s] -> %s (%s, %d ms)", o.Name, o.Path, o.Status, o.Backend, o.Ms))
+		}
+		res.Extra["retried"] = rn
+	}
+	if len(tries) > 0 {
+		SolveAll(tries, work, timeout, false)
+		var ts []string
+		for _, o := range tries {
+			ts = append(ts, fmt.Sprintf("%s: %s (%s, %d ms)", o.Name, o.Status, o.Backend, o.Ms))
+		}
+		res.Extra["attempted_not_claimed"] = ts
+	}
 	os.RemoveAll(work)
 
 	findings := loadFindings(filepath.Join(verifDir, "known_findings.txt"))
